@@ -545,7 +545,7 @@ def main(tier, seed, replay=None):
         print("replay file records:", json.dumps(r, default=str)[:2000])
         return 1
     regen_all()
-    ok_make, log = coq_make(["Proofs/AbsIntTable.vo"])
+    ok_make, log = coq_make(["Proofs/AbsIntTable.vo", "Proofs/AbsIntSI.vo"])
     pr = check_props(PROP) if ok_make else {"ok": False, "obligations": [
         {"name": "C24_*", "closed": False, "axioms": ["<does not compile>"], "ok": False}], "log": log[-3000:]}
     rep.obligations(pr, "make Proofs/AbsIntTable.vo && coqc -R coq CV coq/Props/C24.v (Print Assumptions)")
